@@ -92,7 +92,7 @@ def _const_fn_call(h):
         if k == "agg" and t[1] == "adt" and last(t[2]) == "Variant" and t[4] and set(t[4]) == {"name", "data"}:
             fs = dict(zip(t[4], t[5]))
             return ("Variant", conv(fs["name"], d + 1), conv(fs["data"], d + 1))
-        if k == "agg" and t[1] == "adt" and last(t[2]) == "NamedType" and t[4] and set(t[4]) == {"name", "ty"}:
+        if k == "agg" and t[1] == "adt" and last(t[2]) in ("NamedField", "NamedType") and t[4] and set(t[4]) == {"name", "ty"}:
             fs = dict(zip(t[4], t[5]))
             return ("Named", conv(fs["name"], d + 1), conv(fs["ty"], d + 1))
         if k == "agg" and t[1] == "adt" and last(t[2]) == "Data":
